@@ -1,5 +1,6 @@
 import Pms.Model.PbcDriver
 import Pms.Model.GenDriver
+import Pms.Model.SphDriver
 /-! `pmsdriver`: one operation per input line, one result per output line. -/
 open Pms Pms.Io
 
@@ -7,6 +8,7 @@ def dispatch (line : String) : String :=
   match words line with
   | "pbc" :: rest => (Pms.Pbc.handlePbc rest).getD "bad-op"
   | "pairf" :: rest => (Pms.GenDriver.handlePairF rest).getD "bad-op"
+  | "sph" :: rest => (Pms.Sph.handleSph rest).getD "bad-op"
   | "ping" :: _ => "pong"
   | _ => "bad-op"
 
